@@ -354,8 +354,11 @@ func (h *RealtimeHandler) HandleEntityDelete(ctx context.Context, respond hwebso
 
 	now := timestamppb.Now()
 
-	session.GetEntityComponents().DeleteByEntityID(entity.ID)
+	// The entity goes first, then what is attached to it: a component added
+	// concurrently either is dropped here or finds the entity gone (see
+	// HandleEntityComponentAdd).
 	session.RemoveEntity(entity)
+	session.GetEntityComponents().DeleteByEntityID(entity.ID)
 	participant.RemoveEntity(entity)
 
 	respond.Send(&hagallpb.EntityDeleteResponse{
@@ -642,6 +645,20 @@ func (h *RealtimeHandler) HandleEntityComponentAdd(ctx context.Context, respond 
 			Timestamp: timestamppb.Now(),
 			RequestId: req.RequestId,
 			Code:      errCode,
+		})
+		return nil
+	}
+
+	// The entity may have been removed (deleted, or its owner left) since it
+	// was looked up. Its components are dropped after the entity itself, so a
+	// component that slipped in after that is dropped here.
+	if _, ok := session.EntityByID(entity.ID); !ok {
+		session.GetEntityComponents().Delete(entityComponent.EntityComponentTypeId, entityComponent.EntityId)
+		respond.Send(&hagallpb.ErrorResponse{
+			Type:      hagallpb.MsgType_MSG_TYPE_ERROR_RESPONSE,
+			Timestamp: timestamppb.Now(),
+			RequestId: req.RequestId,
+			Code:      hagallpb.ErrorCode_ERROR_CODE_NOT_FOUND,
 		})
 		return nil
 	}
@@ -1010,10 +1027,6 @@ func (h *RealtimeHandler) leaveSession() {
 		return
 	}
 
-	for _, m := range h.Modules {
-		m.HandleDisconnect()
-	}
-
 	session.GetEntityComponents().UnsubscribeByParticipant(participant.ID)
 
 	now := timestamppb.Now()
@@ -1024,8 +1037,8 @@ func (h *RealtimeHandler) leaveSession() {
 			continue
 		}
 
-		session.GetEntityComponents().DeleteByEntityID(entity.ID)
 		session.RemoveEntity(entity)
+		session.GetEntityComponents().DeleteByEntityID(entity.ID)
 
 		h.FeatureFlags.IfNotSet(featureflag.FlagDisableEntityDeleteBroadcast, func() {
 			session.Broadcast(participant, &hagallpb.EntityDeleteBroadcast{
@@ -1035,6 +1048,12 @@ func (h *RealtimeHandler) leaveSession() {
 				EntityId:        entity.ID,
 			})
 		})
+	}
+
+	// Modules drop what is attached to the removed entities once these are
+	// gone, for the same reason as above.
+	for _, m := range h.Modules {
+		m.HandleDisconnect()
 	}
 
 	if h.stopFrameHandling != nil {
